@@ -139,6 +139,7 @@ static void check_all(const uint8_t *m, size_t n, int align, uint32_t seed, cons
         if (z != 0)
             mc::violation("C17.strmcrc8.self_check", "%s len=%zu seed=%02x msg=%s..: crc of message||crc = %02x, want 0", fam, n, s8, hx.c_str(), z);
     }
+    if (n <= 65535)
     {
         mc::crash_context("C17.crc16.memory");
         uint16_t c = igris_crc16(e.p, (uint16_t)n, s16);
@@ -301,8 +302,8 @@ MC_INIT
     // (f) lengths beyond the 8-bit range for the routines whose length parameter is wider (crc16: uint16_t,
     //     crc32: uint32_t, the streaming CRC-8 has no length): a narrow loop counter would wrap here
     mc::add_check("long_messages_wide_length", [] {
-        static const int L[] = {255, 256, 257, 258, 259, 511, 512, 513, 1000, 4095, 4096, 4097, 65533, 65534, 65535};
-        int li = mc::choose(15);
+        static const int L[] = {255, 256, 257, 258, 259, 511, 512, 513, 1000, 4095, 4096, 4097, 65533, 65534, 65535, 65536, 65537, 65539, 100001};
+        int li = mc::choose(19);
         int fam = mc::choose(6);
         int align = mc::choose(4);
         int len = L[li];
